@@ -236,8 +236,12 @@ def case_set_st(draw):
                "answers": answers, "use_order_key": False, "view_insertions": None}
         filters = draw(st.lists(st.lists(st.booleans(), min_size=n, max_size=n), min_size=1,
                                 max_size=3))
-        return {"kind": kind, "survey": {"n": n, "weights": None, "vars": {"r": var}},
+        weights = draw(scen.S.weights_st(n, ("none", "int", "dyadic")))
+        return {"kind": kind, "survey": {"n": n, "weights": weights, "vars": {"r": var}},
                 "filters": filters, "shape": [kind],
+                "weighted": weights is not None and draw(st.booleans()),
+                "form": draw(st.sampled_from(["dict", "dict", "json", "envelope",
+                                              "json-envelope"])),
                 "min_base": draw(st.sampled_from([0, 3])),
                 "population": draw(st.sampled_from([None, 1000]))}
     weights = draw(scen.S.weights_st(n, ("none", "int", "dyadic")))
@@ -282,17 +286,20 @@ def case_set_st(draw):
             "population": draw(st.sampled_from([None, 1000]))}
 
 
-def _filter_response(sv, keep):
+def _filter_response(sv, keep, weighted=False):
     """zz9's answer for the text variable among the respondents in `keep`: values nobody
     gave are left out and the remaining elements are numbered afresh."""
     var = sv["vars"]["r"]
     sub = copy.deepcopy(sv)
     sub["n"] = sum(keep)
     sub["vars"]["r"]["answers"] = [a for a, k in zip(var["answers"], keep) if k]
-    resp = zz9enc.encode(sub, {"dims": [{"var": "r"}], "weighted": False})
+    if sub["weights"] is not None:
+        sub["weights"] = [w for w, k in zip(sv["weights"], keep) if k]
+    resp = zz9enc.encode(sub, {"dims": [{"var": "r"}], "weighted": weighted})
     res = resp["result"]
     els = res["dimensions"][0]["type"]["elements"]
     counts = list(res["counts"])
+    wcounts = list(res["measures"]["count"]["data"])
     kept = [i for i, e in enumerate(els) if e.get("missing") or counts[i] > 0]
     new_els = []
     for i in kept:
@@ -302,25 +309,35 @@ def _filter_response(sv, keep):
         new_els.append(e)
     res["dimensions"][0]["type"]["elements"] = new_els
     res["counts"] = [counts[i] for i in kept]
-    res["measures"]["count"]["data"] = [counts[i] for i in kept]
+    res["measures"]["count"]["data"] = [wcounts[i] for i in kept]
     res["is_single_col_cube"] = True
     return resp, len(kept) != len(els)
 
 
 def judge_filtercol(case, rec):
+    import json as _json
     sv = case["survey"]
     var = sv["vars"]["r"]
-    summary = zz9enc.encode(sv, {"dims": [{"var": "r"}], "weighted": False})
+    weighted = case.get("weighted", False)
+    W = sv["weights"] if weighted else None
+    summary = zz9enc.encode(sv, {"dims": [{"var": "r"}], "weighted": weighted})
     resps, dropped = [summary], False
     for keep in case["filters"]:
-        r, d = _filter_response(sv, keep)
+        r, d = _filter_response(sv, keep, weighted)
         resps.append(r)
         dropped = dropped or d
     rec.nontrivial(dropped)
     if dropped:
         rec.event("filter cube lacks a text value")
-    cs = lib.CubeSet(copy.deepcopy(resps), [{} for _ in resps], case["population"],
-                     case["min_base"])
+    form = case.get("form", "dict")
+    rec.event("form=" + form)
+    if weighted:
+        rec.event("weighted filter cubes")
+    given = copy.deepcopy(resps)
+    args = {"dict": given, "json": [_json.dumps(r) for r in given],
+            "envelope": [{"value": r} for r in given],
+            "json-envelope": [_json.dumps({"value": r}) for r in given]}[form]
+    cs = lib.CubeSet(args, [{} for _ in resps], case["population"], case["min_base"])
     psets = cs.partition_sets
     rec.compared()
     if len(psets) != 1 or len(psets[0]) != len(resps):
@@ -331,24 +348,40 @@ def judge_filtercol(case, rec):
     labels = [c["evalue"] for c in valid]
     for j, keep in enumerate([[True] * sv["n"]] + case["filters"]):
         part = psets[0][j]
-        want = [sum(1 for a, k in zip(var["answers"], keep) if k and a == c["id"])
-                for c in valid]
+        want_u = [sum(1 for a, k in zip(var["answers"], keep) if k and a == c["id"])
+                  for c in valid]
+        want_w = want_u if W is None else [
+            sum(w for a, k, w in zip(var["answers"], keep, W) if k and a == c["id"])
+            for c in valid]
         rec.compared(3)
         if list(part.row_labels) != labels:
             rec.violation("filter-column cube %d row labels %r, the summary cube's are %r" % (
                 j, list(part.row_labels), labels), "filtercol-labels")
             continue
-        for name in ("counts", "unweighted_counts"):
+        for name, want in (("counts", want_w), ("unweighted_counts", want_u)):
             got = np.asarray(getattr(part, name), dtype=float)
             if got.shape != (len(want),) or not _arr_eq(got, np.asarray(want, dtype=float)):
                 rec.violation("filter-column cube %d %s %r, filtered respondents give %r" % (
                     j, name, got.tolist(), want), "filtercol-" + name)
-        tot = float(sum(want))
+        tot = float(sum(want_w))
         got = np.asarray(part.table_proportions, dtype=float)
-        exp = np.asarray([x / tot if tot else np.nan for x in want], dtype=float)
+        exp = np.asarray([x / tot if tot else np.nan for x in want_w], dtype=float)
         if got.shape != exp.shape or not _arr_eq(got, exp):
             rec.violation("filter-column cube %d table_proportions %r, respondents give %r" % (
                 j, got.tolist(), exp.tolist()), "filtercol-proportions")
+    # --- the caller's response objects analysed on their own afterwards: as before
+    if form in ("dict", "envelope"):
+        for j in range(1, len(resps)):
+            before = lib.cube(copy.deepcopy(resps[j])).partitions[0]
+            after = lib.cube(given[j]).partitions[0]
+            rec.compared()
+            if list(before.row_labels) != list(after.row_labels) or not _arr_eq(
+                    np.asarray(before.counts, dtype=float), np.asarray(after.counts, dtype=float)):
+                rec.violation("filter response %d analysed on its own after the cube set: rows "
+                              "%r counts %r; before: rows %r counts %r" % (
+                                  j, list(after.row_labels), np.asarray(after.counts).tolist(),
+                                  list(before.row_labels), np.asarray(before.counts).tolist()),
+                              "filtercol-response-rewritten")
 
 
 def judge_set(case, rec):
